@@ -39,3 +39,54 @@ pub fn header_map_entries<T>(h: &HeaderMap<T>) -> (r: Vec<(&HeaderName, &T)>)
 /// http guarantees header names are visible ASCII (tokens)
 pub broadcast axiom fn axiom_header_name_ascii(h: HeaderName)
     ensures all_ascii(#[trigger] h.name);
+
+/// http::Method (rendered by to_string as its name), http::Uri, http::request::Parts, bytes::Bytes
+pub struct Method { pub ghost name: Seq<char> }
+impl Method {
+    #[verifier::external_body]
+    pub fn to_string(&self) -> (r: String) ensures r@ == self.name { unimplemented!() }
+}
+/// `other` stands for scheme and authority (whatever else identifies the URI)
+pub struct Uri { pub ghost path: Seq<u8>, pub ghost query: Option<Seq<u8>>, pub ghost other: int, pub ghost built_from: Option<Seq<u8>> }
+pub struct UriBuilder { pub ghost pq: Option<Seq<u8>> }
+#[derive(Debug)]
+pub struct HttpError;
+impl std::fmt::Display for HttpError { #[verifier::external_body] fn fmt(&self, f: &mut std::fmt::Formatter<'_>) -> std::fmt::Result { unimplemented!() } }
+impl Uri {
+    #[verifier::external_body]
+    pub fn path(&self) -> (r: &str) ensures r.spec_bytes() == self.path { unimplemented!() }
+    #[verifier::external_body]
+    pub fn query(&self) -> (r: Option<&str>)
+        ensures self.query is None ==> r is None, self.query is Some ==> r is Some && r->Some_0.spec_bytes() == self.query->Some_0
+    { unimplemented!() }
+    #[verifier::external_body]
+    pub fn builder() -> (r: UriBuilder) ensures r.pq is None { unimplemented!() }
+}
+impl UriBuilder {
+    #[verifier::external_body]
+    pub fn path_and_query(self, pq: String) -> (r: UriBuilder) ensures r.pq == Some(str_bytes(pq@)) { unimplemented!() }
+    /// build(): may fail (invalid characters, or longer than http's MAX_LEN = 65 534 bytes); when it succeeds the URI consists of exactly the
+    /// given path and query (no scheme, no authority: `other == 0`)
+    #[verifier::external_body]
+    pub fn build(self) -> (r: Result<Uri, HttpError>)
+        ensures r is Ok && self.pq is Some ==> {
+            let pq = self.pq->Some_0;
+            &&& r->Ok_0.other == 0
+            &&& r->Ok_0.built_from == Some(pq)
+            &&& r->Ok_0.path == split_first(pq, 0x3f).0
+            &&& r->Ok_0.query == (if first_index(pq, 0x3f, 0) < pq.len() { Some(split_first(pq, 0x3f).1) } else { None::<Seq<u8>> })
+        }
+    { unimplemented!() }
+}
+/// `other` stands for version and extensions
+pub struct Parts { pub method: Method, pub uri: Uri, pub headers: HeaderMap<HeaderValue>, pub ghost other: int }
+pub struct Bytes { pub ghost data: Seq<u8> }
+impl Bytes {
+    #[verifier::external_body]
+    pub fn as_ref(&self) -> (r: &[u8]) ensures r@ == self.data { unimplemented!() }
+    /// `Bytes::from(&'static str)`
+    #[verifier::external_body]
+    pub fn from(s: &'static str) -> (r: Bytes) ensures r.data == s.spec_bytes() { unimplemented!() }
+    #[verifier::external_body]
+    pub fn new() -> (r: Bytes) ensures r.data == Seq::<u8>::empty() { unimplemented!() }
+}
